@@ -1,1 +1,169 @@
 // Kani harnesses compiled inside rs-matter/src/tlv.rs (module `verif_kani`).
+
+mod c16 {
+    use super::*;
+
+    const TAG_OCTETS: [usize; 8] = [0, 1, 2, 4, 2, 4, 6, 8];
+
+    /// Every one of the 256 control bytes: accepted iff the element type is assigned; what is
+    /// accepted is decoded to exactly the two bit fields and encodes back to the same byte.
+    // TIER: quick
+    // KIND: complete
+    #[kani::proof]
+    fn c16_control_parse_all_bytes() {
+        let b: u8 = kani::any();
+        let r = TLVControl::parse(b);
+        let ty = b & 0x1f;
+        let tc = b >> 5;
+        kani::assert(r.is_ok() == (ty <= 0x18), "C16.control.accepts_exactly_assigned_types");
+        if let Ok(c) = r {
+            kani::assert(c.tag_type as u8 == tc, "C16.control.tag_bits");
+            kani::assert(c.value_type as u8 == ty, "C16.control.type_bits");
+            kani::assert(c.as_raw() == b, "C16.control.as_raw_inverts_parse");
+            kani::assert(c.tag_type.size() == TAG_OCTETS[tc as usize], "C16.control.tag_octets");
+            // the end-of-container marker is the single byte 0x18
+            kani::assert(c.is_container_end() == (b == 0x18), "C16.control.end_marker_is_0x18");
+            kani::assert(c.is_container_start() == (ty >= 0x15 && ty <= 0x17), "C16.control.container_start");
+            kani::assert(c.confirm_container_end().is_ok() == (b == 0x18), "C16.control.confirm_end");
+        }
+        kani::cover!(r.is_ok() && tc == 7, "fully qualified 8-octet tag");
+        kani::cover!(r.is_err(), "reserved element type");
+        kani::cover!(b == 0x18, "end of container");
+    }
+
+    /// `new` / `as_raw` / `parse` over every (tag type, value type) pair.
+    // TIER: quick
+    // KIND: complete
+    #[kani::proof]
+    fn c16_control_new_roundtrip() {
+        let tc: u8 = kani::any();
+        let ty: u8 = kani::any();
+        kani::assume(tc < 8 && ty <= 0x18);
+        let t: Option<TLVTagType> = FromPrimitive::from_u8(tc);
+        let v: Option<TLVValueType> = FromPrimitive::from_u8(ty);
+        kani::assert(t.is_some(), "C16.control.every_tag_control_exists");
+        kani::assert(v.is_some(), "C16.control.every_assigned_type_exists");
+        let (t, v) = (t.unwrap(), v.unwrap());
+        let c = TLVControl::new(t, v);
+        kani::assert(c.as_raw() == (tc << 5) | ty, "C16.control.as_raw_layout");
+        let back = TLVControl::parse(c.as_raw());
+        kani::assert(matches!(back, Ok(p) if p == c), "C16.control.parse_inverts_as_raw");
+        kani::cover!(tc == 7 && ty == 0x18, "largest pair");
+    }
+
+    /// Size tables of the 25 element types.
+    // TIER: quick
+    // KIND: complete
+    #[kani::proof]
+    fn c16_value_type_tables() {
+        let ty: u8 = kani::any();
+        kani::assume(ty <= 0x18);
+        let v: TLVValueType = FromPrimitive::from_u8(ty).unwrap();
+
+        let is_int = ty <= 7;
+        let is_string = ty >= 0x0c && ty <= 0x13;
+        let pow = 1usize << (ty & 3);
+        let expect_fixed = if is_int {
+            Some(pow)
+        } else if ty == 0x0a {
+            Some(4)
+        } else if ty == 0x0b {
+            Some(8)
+        } else if is_string {
+            None
+        } else {
+            Some(0)
+        };
+        kani::assert(v.fixed_size() == expect_fixed, "C16.types.fixed_size");
+        kani::assert(v.variable_size_len() == if is_string { pow } else { 0 }, "C16.types.length_field_octets");
+        // exactly the strings have a length field, and exactly they have no fixed size
+        kani::assert(v.fixed_size().is_none() == (v.variable_size_len() > 0), "C16.types.fixed_xor_variable");
+        kani::assert(
+            matches!(v.variable_size_len(), 0 | 1 | 2 | 4 | 8),
+            "C16.types.length_field_is_0_1_2_4_8"
+        );
+        kani::assert(v.is_utf8() == (ty >= 0x0c && ty <= 0x0f), "C16.types.is_utf8");
+        kani::assert(v.is_str() == (ty >= 0x10 && ty <= 0x13), "C16.types.is_str");
+        kani::assert(v.is_container_start() == (ty >= 0x15 && ty <= 0x17), "C16.types.is_container_start");
+        kani::assert(v.is_container_end() == (ty == 0x18), "C16.types.is_container_end");
+        kani::assert(v.is_container() == (ty >= 0x15), "C16.types.is_container");
+        let cv = v.container_value();
+        kani::assert(cv.is_ok() == (ty >= 0x15), "C16.types.container_value_total");
+        if let Ok(cv) = cv {
+            kani::assert(cv.value_type() == v, "C16.types.container_value_same_type");
+        }
+        kani::cover!(is_string && pow == 8, "64-bit length field");
+        kani::cover!(ty == 0x18, "end of container");
+        kani::cover!(ty == 0x0b, "f64");
+    }
+
+    /// Tag-control table, and `TLVTag::tag_type` agrees with the octets the tag byte iterator emits.
+    // TIER: quick
+    // KIND: complete
+    #[kani::proof]
+    #[kani::unwind(10)]
+    fn c16_tag_type_size_and_tag_bytes() {
+        let tc: u8 = kani::any();
+        kani::assume(tc < 8);
+        let t: TLVTagType = FromPrimitive::from_u8(tc).unwrap();
+        kani::assert(t.size() == TAG_OCTETS[tc as usize], "C16.tags.size_table");
+
+        let a: u16 = kani::any();
+        let b: u16 = kani::any();
+        let c: u32 = kani::any();
+        // expected octets, written from the encoding rules: little-endian, vendor / profile / tag
+        let mut exp = [0u8; 8];
+        let tag = match tc {
+            0 => TLVTag::Anonymous,
+            1 => {
+                exp[0] = c as u8;
+                TLVTag::Context(c as u8)
+            }
+            2 | 4 => {
+                exp[0] = c as u8;
+                exp[1] = (c >> 8) as u8;
+                if tc == 2 { TLVTag::CommonPrf16(c as u16) } else { TLVTag::ImplPrf16(c as u16) }
+            }
+            3 | 5 => {
+                exp[0] = c as u8;
+                exp[1] = (c >> 8) as u8;
+                exp[2] = (c >> 16) as u8;
+                exp[3] = (c >> 24) as u8;
+                if tc == 3 { TLVTag::CommonPrf32(c) } else { TLVTag::ImplPrf32(c) }
+            }
+            _ => {
+                exp[0] = a as u8;
+                exp[1] = (a >> 8) as u8;
+                exp[2] = b as u8;
+                exp[3] = (b >> 8) as u8;
+                exp[4] = c as u8;
+                exp[5] = (c >> 8) as u8;
+                if tc == 6 {
+                    TLVTag::FullQual48 { vendor_id: a, profile: b, tag: c as u16 }
+                } else {
+                    exp[6] = (c >> 16) as u8;
+                    exp[7] = (c >> 24) as u8;
+                    TLVTag::FullQual64 { vendor_id: a, profile: b, tag: c }
+                }
+            }
+        };
+        kani::assert(tag.tag_type() == t, "C16.tags.tag_type_of_tag");
+
+        let mut it = tag.iter();
+        let mut n = 0usize;
+        let mut same = true;
+        while let Some(byte) = it.next() {
+            if n < 8 && byte != exp[n] {
+                same = false;
+            }
+            n += 1;
+            if n > 8 {
+                break;
+            }
+        }
+        kani::assert(n == t.size(), "C16.tags.iter_emits_size_octets");
+        kani::assert(same, "C16.tags.iter_emits_little_endian_fields");
+        kani::cover!(tc == 7 && n == 8, "8-octet tag emitted");
+        kani::cover!(tc == 0 && n == 0, "anonymous emits nothing");
+    }
+}
